@@ -382,6 +382,44 @@ pub fn run(ctx: &mut Ctx, rng: &mut Rng, _thorough: bool) {
             }
         }
     }
+    // references that do not fit the index type: the file says idx + 2^32 (or idx + 2^40) where the consistent
+    // network says idx. Narrowing such a number silently would alias it to the very link that makes the network
+    // consistent, so every load path must answer with an error value. Text-level fault: the typed structs cannot
+    // hold it.
+    if let Ok(good) = serde_json::to_value(Network(links.clone())) {
+        let n = links.len();
+        for _ in 0..3 {
+            let i = rng.usize(1, n - 1);
+            for field in ["idx_next", "idx_prev", "idx_flip", "idx_curr"] {
+                let v = match good.get(i).and_then(|l| l.get(field)).and_then(|x| x.as_u64()) {
+                    Some(v) if v != 0 || field == "idx_curr" => v,
+                    _ => continue,
+                };
+                for shift in [32u32, 40] {
+                    let mut bad = good.clone();
+                    bad[i][field] = json!(v + (1u64 << shift));
+                    let rule = "reference_wider_than_the_index_type";
+                    ctx.count("obs.faults_injected");
+                    ctx.count(&format!("obs.fault.{rule}"));
+                    ctx.rep.evaluations += 1;
+                    let js = bad.to_string();
+                    let ys = serde_yaml::to_string(&bad).unwrap_or_default();
+                    let mut res = vec![("from_json", panics::guard(AssertUnwindSafe(|| Network::from_json(&js).map_err(|e| format!("{e:#}")))))];
+                    if !ys.is_empty() {
+                        res.push(("from_yaml", panics::guard(AssertUnwindSafe(|| Network::from_yaml(&ys).map_err(|e| format!("{e:#}"))))));
+                    }
+                    for (path, r) in res {
+                        match r {
+                            Ok(Ok(_)) => ctx.violate("fault_rejected", &format!("C16:fault_accepted:{rule}"), format!("{path}: link {i} says {field} = {} (= {v} + 2^{shift}), which no index can hold, and the network was accepted", v + (1u64 << shift)),
+                                json!({"rule": rule, "link": i, "field": field, "path": path})),
+                            Ok(Err(_)) => ctx.count("obs.faults_rejected_with_error_value"),
+                            Err(pn) => ctx.violate("no_abort", &format!("C16:panic:{rule}"), format!("{path}: {field} = {} panicked: {} at {}", v + (1u64 << shift), pn.message.chars().take(200).collect::<String>(), pn.location), json!({"rule": rule, "link": i, "field": field, "path": path})),
+                        }
+                    }
+                }
+            }
+        }
+    }
     // coincident switch points: two adjacent double gaps, otherwise fully reciprocal
     {
         let mut o2 = o.clone();
